@@ -82,6 +82,8 @@ pub struct LiveDump {
     pub seen_doc_end: bool,
     pub synthesized_null: bool,
     pub last_location: Location,
+    /// the report handed to the budget-report callback by `finish()` (only for the `*_with_report` entry)
+    pub report: Option<crate::budget::BudgetReport>,
 }
 
 fn drain(mut live: LiveEvents<'_>, max_events: usize) -> LiveDump {
@@ -121,6 +123,7 @@ fn drain(mut live: LiveEvents<'_>, max_events: usize) -> LiveDump {
         seen_doc_end: live.seen_doc_end(),
         synthesized_null: live.synthesized_null_emitted(),
         last_location: live.last_location(),
+        report: None,
     }
 }
 
@@ -133,6 +136,26 @@ pub fn live_events_from_str(
 ) -> LiveDump {
     let live = LiveEvents::from_str(input, budget, None, None, alias_limits, stop_at_doc_end);
     drain(live, max_events)
+}
+
+/// `live_events_from_str` with a budget-report callback registered: `LiveDump::report` is what `finish()` reported.
+pub fn live_events_from_str_with_report(
+    input: &str,
+    budget: Option<Budget>,
+    alias_limits: AliasLimits,
+    stop_at_doc_end: bool,
+    max_events: usize,
+) -> LiveDump {
+    let cell: std::rc::Rc<std::cell::RefCell<Option<crate::budget::BudgetReport>>> = Default::default();
+    let sink = cell.clone();
+    let cb: crate::options::BudgetReportCallback =
+        std::rc::Rc::new(std::cell::RefCell::new(move |r: crate::budget::BudgetReport| {
+            *sink.borrow_mut() = Some(r);
+        }));
+    let live = LiveEvents::from_str(input, budget, None, Some(cb), alias_limits, stop_at_doc_end);
+    let mut dump = drain(live, max_events);
+    dump.report = cell.borrow_mut().take();
+    dump
 }
 
 pub fn live_events_from_reader<R: std::io::Read>(
